@@ -281,14 +281,52 @@ func contextRefName(contextOfCall protoreflect.Descriptor, refElement protorefle
 	// a message which refers to itself or to one of its ancestors (including the
 	// value type of a map field, whose context is the map entry) would
 	// otherwise get an empty type name.
+	stripped := 0
 	for i := 0; i < len(contextPath); i++ {
 		if len(refPath) <= 1 || refPath[0] != contextPath[i] {
 			break
 		}
 		refPath = refPath[1:]
+		stripped++
+	}
+
+	// A relative name is looked up from the innermost scope outwards and the
+	// first scope which declares its first component wins. If one of the scopes
+	// between the context and the scope the short name is relative to declares
+	// that component, it would capture the reference: fall back to the fully
+	// qualified name, which is always right.
+	scope := contextOfCall
+	for depth := len(contextPath); depth > stripped && scope != nil; depth-- {
+		if declaresName(scope, refPath[0]) {
+			return "." + string(refElement.FullName()), nil
+		}
+		scope = scope.Parent()
 	}
 
 	return strings.Join(refPath, "."), nil
+}
+
+// declaresName reports whether the message or service directly declares
+// something called name (nested type, field, oneof, enum value, method).
+func declaresName(scope protoreflect.Descriptor, name string) bool {
+	n := protoreflect.Name(name)
+	switch scope := scope.(type) {
+	case protoreflect.MessageDescriptor:
+		if scope.Messages().ByName(n) != nil || scope.Enums().ByName(n) != nil ||
+			scope.Fields().ByName(n) != nil || scope.Oneofs().ByName(n) != nil ||
+			scope.Extensions().ByName(n) != nil {
+			return true
+		}
+		enums := scope.Enums()
+		for i := 0; i < enums.Len(); i++ {
+			if enums.Get(i).Values().ByName(n) != nil {
+				return true
+			}
+		}
+	case protoreflect.ServiceDescriptor:
+		return scope.Methods().ByName(n) != nil
+	}
+	return false
 }
 
 func pathToPackage(refElement protoreflect.Descriptor) []string {
